@@ -6,7 +6,9 @@ pipeline -> real generated builders, compiled / imported -> every option of ever
 with JSON-encoded arguments through an extension generated from the builder IR) is also evaluated
 by the Lean driver (`gobuild`, `pybuild`), which must predict builder.internal, the keys of
 builder.errors and the outcome of Build().  Oracle: the property itself on the real outcomes
-(harness/c09_stream.go: reference interpreter on JSON documents).
+(harness/c09_stream.go: reference interpreter on JSON documents); whether an argument is valid or violating is read off
+the SOURCE term at the option's target (harness/c09_srcjudge.go), in all three input formats, and arguments are drawn
+around the source bounds (bound-1, bound, bound+1, their negations, 0).
 """
 import atexit, hashlib
 import collections, json, os, re, sys, time
@@ -319,8 +321,23 @@ class Runner:
                          "n_disagreements": len(self.disagree)}, found_input=False)
 
 
+PROPOSED = os.path.join(VERIF, "checks", "c09.negbounds.proposed_findings.json")
+
+
+def load_proposed(c):
+    """entries of checks/c09.negbounds.proposed_findings.json (findings the source-side judgement of option arguments
+    surfaced) count as known until known_findings.json holds an entry of the same id"""
+    if not os.path.exists(PROPOSED):
+        return
+    have = {f["id"] for f in c.known}
+    for f in json.load(open(PROPOSED)).get("findings", []):
+        if f["id"] not in have and f.get("property") == PID:
+            c.known.append(f)
+
+
 def main():
     c = Check(PID)
+    load_proposed(c)
     c.trusted = [
         "Lean 4.33 kernel; axioms per theorem are listed in obligation_list (subset of propext, Classical.choice, Quot.sound)",
         "hand-written models lean/Cog/Sem/GoBuilder.lean (builder.tmpl, options.tmpl, assignment.tmpl, nilcheck.tmpl, emptyValueForGuard, "
@@ -329,7 +346,10 @@ def main():
         "the builder IR (after veneers and nil checks) is an INPUT of the model, read from the real pipeline (VIR); New<Object>() values are inputs "
         "too (C10's subject), read back from the generated constructors; Validate() is C08's model (lean/Cog/Sem/GoValidate.lean)",
         "the reflective lab extension (harness/c09_rt.go) reads builder.internal / builder.errors through reflect+unsafe; encoding/json; Go toolchain",
-        "the oracle's reference interpreter (harness/c09_stream.go) works on JSON documents up to omitempty",
+        "the oracle's reference interpreter (harness/c09_stream.go) works on JSON documents up to omitempty; the judgement valid / violating "
+        "of a plain argument is made on the source term (harness/c09_srcjudge.go: integer / number bounds, string length limits, through "
+        "references, nullable, arrays, dicts, struct documents); a CUE range admitting a single value is a constant (not judged); unions, "
+        "built objects and builders of anonymous structs fall back to the constraints of the builder IR's types (counted: tags judge.ir)",
         "cases whose generated package does not compile (code-generation defects, property C02) show nothing about this property: they are counted per "
         "compiler diagnostic (distribution.stats notbuilt:*), and every stream must build at least 60% of its cases, otherwise the smallest such case is reported",
     ]
@@ -394,7 +414,13 @@ def main():
     c.oblige("the oracle's reference interpreter covers the streams (gave up on < 10% of runs)",
              st["oracle_gave_up"] <= 0.1 * max(1, st["runs"]), dict(st))
     need = ["method.append", "method.index", "nilcheck", "path.nested", "value.envelope", "value.constant", "arg.builder",
-            "arg.builders.array", "mode.invalid", "mode.fail-be", "mode.fail-natural", "mode.sequence"]
+            "arg.builders.array", "mode.invalid", "mode.fail-be", "mode.fail-natural", "mode.sequence", "mode.boundary"]
+    # valid / violating is read off the SOURCE term: every plain argument written to a member the source term names
+    # (the builder IR's types are the fallback for built objects, unions and builders of anonymous structs only)
+    c.oblige("the accept / reject verdict of plain option arguments comes from the source term (judge.source > 0, and more often than "
+             "from the builder IR's types among the single-call runs with a bounded target: mode.boundary > 0)",
+             r.tags["judge.source"] > 0 and r.tags["mode.boundary"] > 0,
+             {k: r.tags[k] for k in ("judge.source", "judge.ir", "judge.source-differs-from-ir", "mode.boundary")})
     c.oblige("constructs exercised: " + ", ".join(need), all(r.tags[k] > 0 for k in need), {k: r.tags[k] for k in need})
     c.cov["distribution"] = {"tags": dict(r.tags), "stats": dict(st)}
     c.cov["oracle_failures"] = st["oracle_failures"]
